@@ -105,7 +105,7 @@ func checkHangRules(c *Ctx, fns []*ssa.Function) {
 	p := c.P
 	nWG, nCh := 0, 0
 	for _, fn := range fns {
-		for _, b := range fn.Blocks {
+		for _, b := range blocksDeep(fn) {
 			for _, in := range b.Instrs {
 				al, ok := in.(*ssa.Alloc)
 				if !ok || !isWaitGroup(al.Type()) {
@@ -182,7 +182,7 @@ func checkHangRules(c *Ctx, fns []*ssa.Function) {
 					// Add(len(X)) + range X
 					ok2, det := false, "no `range` loop over the same collection starts the Done goroutines"
 					for _, g := range spawns {
-						for _, h := range fn.Blocks {
+						for _, h := range blocksDeep(fn) {
 							ifi, isIf := h.Instrs[len(h.Instrs)-1].(*ssa.If)
 							if !isIf {
 								continue
@@ -215,7 +215,7 @@ func checkHangRules(c *Ctx, fns []*ssa.Function) {
 			}
 		}
 		// H2
-		for _, b := range fn.Blocks {
+		for _, b := range blocksDeep(fn) {
 			for _, in := range b.Instrs {
 				rcv, ok := in.(*ssa.UnOp)
 				if !ok || rcv.Op != token.ARROW || !rcv.CommaOk {
@@ -242,7 +242,7 @@ func checkHangRules(c *Ctx, fns []*ssa.Function) {
 				nCh++
 				closes := false
 				det := "no goroutine started before the loop closes the channel on every path"
-				for _, bb := range fn.Blocks {
+				for _, bb := range blocksDeep(fn) {
 					for _, x := range bb.Instrs {
 						g, ok := x.(*ssa.Go)
 						if !ok {
